@@ -4,6 +4,7 @@ import (
 	"fmt"
 	"go/token"
 	"math"
+	"regexp"
 	"sort"
 	"strings"
 
@@ -168,6 +169,14 @@ func rulesC08(w *World, r *Report) {
 		}
 	}
 	ruleC08R8(w, r, a)
+	{
+		var fs []*ssa.Function
+		for f := range cmdReachableFrom(w, "CopyCommand") {
+			fs = append(fs, f)
+		}
+		sort.Slice(fs, func(i, j int) bool { return funcName(fs[i]) < funcName(fs[j]) })
+		ruleLoopFailureStops(w, r, "C08.R7", fs)
+	}
 	ruleC05R7(w, r, "C05.R7", 3, cmdReachableFrom(w, "CopyCommand"))
 	r.Rule("C08.R9", "the batch writer stores every aligned point it is given (no value- or age-dependent skip inside archiveUpdateMany), so NaN points requested by -copy-nan clear the destination slot; the write happens at the reads' clock all the way down to UpdatePointsForArchive", 2)
 	ruleWriterWritesAll(w, r, "C08.R9")
@@ -248,6 +257,14 @@ func rulesC11(w *World, r *Report) {
 	}
 	if ex := need(w, r, "C11.R3", w.Cmd, "SumDiffCommand.execute"); ex != nil {
 		ruleLatchedVerdict(w, r, "C11.R3", ex)
+	}
+	{
+		var fs []*ssa.Function
+		for f := range cmdReachableFrom(w, "SumCopyCommand", "SumDiffCommand") {
+			fs = append(fs, f)
+		}
+		sort.Slice(fs, func(i, j int) bool { return funcName(fs[i]) < funcName(fs[j]) })
+		ruleLoopFailureStops(w, r, "C11.R3", fs)
 	}
 	ruleC05R7(w, r, "C05.R7", 3, cmdReachableFrom(w, "SumCopyCommand", "SumDiffCommand"))
 	ruleValueTables(w, r, "C10.R1", false, false, true)
@@ -696,10 +713,51 @@ func ruleDiffPredicates(w *World, r *Report, rule string) {
 				}
 			}
 		}
-		// the two appends append the points of (ts, i) and (ts2, i)
-		a0, a1 := newExprCtx(w), newExprCtx(w)
-		_ = a0
-		_ = a1
+		// the appended points carry the slot time computed from the slot index (from + i*step), with the index of the compared values
+		reTime := regexp.MustCompile(`^whispertool\.Timestamp\.Add\(p([01])\.fromTime, \(((?:i\d+|\(i\d+ \+ 1\))) \*:int32 p[01]\.step\)\)$`)
+		nTimes := 0
+		eachInstr(f, func(in ssa.Instruction) {
+			st, ok := in.(*ssa.Store)
+			if !ok {
+				return
+			}
+			fa, ok := st.Addr.(*ssa.FieldAddr)
+			if !ok {
+				return
+			}
+			if _, fname, _ := fieldAddrOf(fa); fname != "Time" {
+				return
+			}
+			// a Point literal (local complit, or an element of the argument array of append)
+			switch x := fa.X.(type) {
+			case *ssa.Alloc:
+				if !strings.HasSuffix(x.Type().String(), "whispertool.Point") {
+					return
+				}
+			case *ssa.IndexAddr:
+				if al, ok := x.X.(*ssa.Alloc); !ok || (al.Comment != "varargs" && al.Comment != "slicelit") {
+					return
+				}
+			default:
+				return
+			}
+			nTimes++
+			ex := newExprCtx(w)
+			eqIdx := ""
+			if m := regexp.MustCompile(`\[(.+)\]$`).FindStringSubmatch(ex.expr(eq.Common().Args[0])); m != nil {
+				eqIdx = m[1]
+			}
+			ts := ex.expr(st.Val)
+			m := reTime.FindStringSubmatch(ts)
+			if m == nil || (eqIdx != "" && m[2] != eqIdx) {
+				bad++
+				r.Violate(rule, sp.name+":point-time", w.instrPos(st), "a reported point's time is "+ts+", not fromTime + i*step for the index i of the compared values: after a skipped slot the listed times drift from the slots they belong to")
+			}
+		})
+		if nTimes < 2 {
+			bad++
+			r.Undecided(rule, sp.name+":point-time", w.pos(f.Pos()), fmt.Sprintf("expected the times of the two appended points, found %d", nTimes))
+		}
 		if bad == 0 {
 			r.OK(rule, sp.name, w.instrPos(eq), fmt.Sprintf("%d atom cases reach the expected inclusion", cases))
 		}
@@ -826,23 +884,12 @@ func rulesC10(w *World, r *Report) {
 			if len(b.Instrs) == 0 {
 				continue
 			}
-			iff, ok := b.Instrs[len(b.Instrs)-1].(*ssa.If)
-			if !ok {
+			// len(matches) == 0, in any spelling
+			lc, emptySucc, _, okE := lenEmptyEdge(b)
+			if !okE {
 				continue
 			}
-			bo, ok := iff.Cond.(*ssa.BinOp)
-			if !ok {
-				continue
-			}
-			// len(matches) == 0
-			lc, isLen := bo.X.(*ssa.Call)
-			k, isK := constInt(bo.Y)
-			if !isLen || !isK || k != 0 || bo.Op != token.EQL {
-				continue
-			}
-			if bi, ok := lc.Common().Value.(*ssa.Builtin); !ok || bi.Name() != "len" {
-				continue
-			}
+			iff := b.Instrs[len(b.Instrs)-1]
 			if cc, idx, isRes := callResult(leavesOf(lc.Common().Args[0])[0]); !isRes || idx != 0 || !isCallToPkgFunc(cc, "path/filepath", "Glob") {
 				continue
 			}
@@ -850,7 +897,7 @@ func rulesC10(w *World, r *Report) {
 			okRet := true
 			n := 0
 			for _, ret := range returnsOf(g) {
-				if !edgeDominates(b, b.Succs[0], ret.Block()) {
+				if !edgeDominates(b, emptySucc, ret.Block()) {
 					continue
 				}
 				n++
@@ -1034,7 +1081,29 @@ func ruleWriterWritesAll(w *World, r *Report, rule string) {
 		e := newExprCtx(w).expr(c.Common().Args[1])
 		r.Check(e == "p1", rule, "archiveUpdateMany:aligns-whole-batch", w.instrPos(c), "aligns the batch it was given", "archiveUpdateMany aligns "+e+" instead of the batch it was given: points are dropped silently before they are written (the partition by age already happened in extractPoints)")
 	}
-	// alignPoints keeps every distinct slot (appends or overwrites the last)
+	// the batch entry point hands the whole batch on: what extractPoints partitions is the parameter itself (sorted in
+	// place) or what the previous archive left, never a filtered copy
+	if upm, ex := fn(w.Lib, "Whisper.UpdatePointsForArchive"), fn(w.Lib, "extractPoints"); upm != nil && ex != nil {
+		for _, c := range callsTo(upm, ex) {
+			bad := ""
+			for _, l := range leavesOf(c.Common().Args[0]) {
+				switch x := stripChangeType(l).(type) {
+				case *ssa.Parameter:
+					if x != upm.Params[1] {
+						bad = newExprCtx(w).expr(l)
+					}
+				case *ssa.Extract:
+					if cc, ok := x.Tuple.(*ssa.Call); !ok || cc.Common().StaticCallee() != ex || x.Index != 1 {
+						bad = newExprCtx(w).expr(l)
+					}
+				case *ssa.Const:
+				default:
+					bad = newExprCtx(w).expr(l)
+				}
+			}
+			r.Check(bad == "", rule, "UpdatePointsForArchive:whole-batch", w.instrPos(c), "the whole batch is partitioned", "UpdatePointsForArchive partitions "+shortExpr(bad)+" instead of the batch it was given: points are removed before they are routed to an archive (a NaN written by copy -copy-nan or sum-copy must clear the slot)")
+		}
+	}
 }
 
 // ruleWriteClock: the now reaching UpdatePointsForArchive below the item function is the reads' now.
